@@ -46,9 +46,9 @@ theorem twin_hist_count_sum (h : Hist) (hl : h.limit = 0) (hv : h.values = []) (
   have hd := (hist_refines .delta h.bounds h.noSum (steps ++ [.collect t]) (h, []) hl rfl rfl).2
   have hc := (hist_refines .cumulative h.bounds h.noSum (steps ++ [.collect t]) (h, []) hl rfl rfl).2
   simp only [hv, e1, e2] at hd hc
-  obtain ⟨r, hr, hcount⟩ := G.twin (histCellF h.bounds h.noSum) (fun v => (v.count : Int)) (fun _ => 1)
+  obtain ⟨r, hr, hcount⟩ := G.twin (fun _ => True) (histCellF h.bounds h.noSum) (fun v => (v.count : Int)) (fun _ => 1)
     (hist_count_additive h.bounds h.noSum) steps t a
-  obtain ⟨r', hr', htotal⟩ := G.twin (histCellF h.bounds h.noSum) (fun v => v.total) (fun x => if h.noSum then 0 else x)
+  obtain ⟨r', hr', htotal⟩ := G.twin (fun _ => True) (histCellF h.bounds h.noSum) (fun v => v.total) (fun x => if h.noSum then 0 else x)
     (hist_total_additive h.bounds h.noSum) steps t a
   have : r' = r := by rw [hr] at hr'; exact (Option.some.inj hr').symm
   subst this
@@ -60,12 +60,56 @@ theorem twin_hist_count_sum (h : Hist) (hl : h.limit = 0) (hv : h.values = []) (
   · show _ = repTotal _ (Hist.runG .delta (h, []) (steps ++ [.collect t])).2 a
     rw [hd]; exact htotal
 
-/-- STATED, NOT PROVED (oracle-checked on every run): the same equation for every bucket count. -/
-def twin_hist_buckets_statement : Prop :=
-  ∀ (h : Hist) (_ : h.limit = 0) (_ : h.values = []) (steps : List Step) (t : Nat) (a : Attr) (i : Nat),
+/-- Well-formedness invariant of the real histogram functions `Hist.measure/delta/cumulative` (any cardinality
+limit, either temporality): along every step sequence every cell held, and every cell ever reported, has a bucket
+vector with exactly `bounds.length + 1` entries. -/
+theorem hist_cells_wellformed (tp : Temporality) (steps : List Step) (s : Hist × List (AMap HistVal))
+    (hw : HistWF s.1) (hr : ∀ r ∈ s.2, ∀ kv ∈ r, kv.2.counts.length = s.1.bounds.length + 1) :
+    let s' := Hist.runG tp s steps
+    s'.1.bounds = s.1.bounds ∧ HistWF s'.1 ∧ ∀ r ∈ s'.2, ∀ kv ∈ r, kv.2.counts.length = s.1.bounds.length + 1 := by
+  induction steps generalizing s with
+  | nil => exact ⟨rfl, hw, hr⟩
+  | cons x l ih =>
+    have hb : (Hist.stepG tp s x).1.bounds = s.1.bounds := by
+      cases x with
+      | measure a v id => rfl
+      | collect t => cases tp <;> rfl
+    have hw' : HistWF (Hist.stepG tp s x).1 := by
+      cases x with
+      | measure a v id => exact Hist.wf_measure s.1 hw a v
+      | collect t => exact Hist.wf_collect s.1 hw tp t
+    have hr' : ∀ r ∈ (Hist.stepG tp s x).2, ∀ kv ∈ r, kv.2.counts.length = (Hist.stepG tp s x).1.bounds.length + 1 := by
+      rw [hb]
+      cases x with
+      | measure a v id => exact hr
+      | collect t =>
+        intro r hr1 kv hkv
+        simp only [Hist.stepG, List.mem_append, List.mem_singleton] at hr1
+        rcases hr1 with hr1 | rfl
+        · exact hr r hr1 kv hkv
+        · simp only [List.mem_map] at hkv
+          obtain ⟨p, hp, rfl⟩ := hkv
+          exact Hist.wf_points s.1 hw tp t p hp
+    have := ih (Hist.stepG tp s x) hw' hr'
+    simp only [hb] at this
+    exact this
+
+/-- Clause "… (histogram … per-bucket counts)": at every collection point the cumulative histogram's count of
+every bucket `i` equals the running total of the delta reader's counts of that bucket, for every attribute set — for
+the real `Hist.measure/delta/cumulative`.  Rests on `hist_cells_wellformed` (bucket `i` is additive only on cells
+whose bucket vector is complete). -/
+theorem twin_hist_buckets (h : Hist) (hl : h.limit = 0) (hv : h.values = []) (steps : List Step) (t : Nat) (a : Attr)
+    (i : Nat) :
     ∃ r, (Hist.runG .cumulative (h, []) (steps ++ [.collect t])).2.getLast? = some r ∧
       projTotal (fun v => ((v.counts[i]?.getD 0 : Nat) : Int)) r a =
-        repTotal (fun v => ((v.counts[i]?.getD 0 : Nat) : Int)) (Hist.runG .delta (h, []) (steps ++ [.collect t])).2 a
+        repTotal (fun v => ((v.counts[i]?.getD 0 : Nat) : Int)) (Hist.runG .delta (h, []) (steps ++ [.collect t])).2 a := by
+  have e1 : (Temporality.delta == Temporality.delta) = true := by decide
+  have e2 : (Temporality.cumulative == Temporality.delta) = false := by decide
+  have hd := (hist_refines .delta h.bounds h.noSum (steps ++ [.collect t]) (h, []) hl rfl rfl).2
+  have hc := (hist_refines .cumulative h.bounds h.noSum (steps ++ [.collect t]) (h, []) hl rfl rfl).2
+  simp only [hv, e1, e2] at hd hc
+  obtain ⟨r, hr, hb⟩ := G.twin _ (histCellF h.bounds h.noSum) _ _ (hist_bucket_additive h.bounds h.noSum i) steps t a
+  exact ⟨r, by rw [hc]; exact hr, by rw [hd]; exact hb⟩
 
 /-- Clause "delta points cover adjacent non-overlapping intervals (each starts where the previous collection
 ended)": for every aggregator, a delta collection at `t` stamps all its points with [previous start, t] and moves
